@@ -1,11 +1,15 @@
 //! crustasim — deterministic simulation with fault injection for crustabri.
 mod cases;
+mod cli;
 mod dpll;
 mod framework;
 mod prng;
+#[cfg(feature = "proc")]
+mod procsim;
 mod props;
 mod refsem;
 mod refstore;
+mod selftest;
 mod simchild;
 mod simsat;
 mod statics;
@@ -91,7 +95,7 @@ fn main() {
             }
         }
         "selftest" => {
-            std::process::exit(0);
+            std::process::exit(selftest::main(&props, seed));
         }
         _ => usage(),
     }
